@@ -502,12 +502,14 @@ class ExprMixin:
                 self.oblige(st, "shape", node, self.length_of(st, a) == self.length_of(st, b), "elementwise operands differ in length")
             if isinstance(op, (ast.Div, ast.Pow)) or "real" in (ka, kb):
                 rk = "real"
-            elif isinstance(op, (ast.BitAnd, ast.BitOr)) and ka == "bool" and kb == "bool":
-                rk = "bool"
+            elif isinstance(op, (ast.BitAnd, ast.BitOr, ast.Mult)) and ka == "bool" and kb == "bool":
+                rk = "bool"   # numpy: the product of two boolean arrays is their conjunction (dtype bool)
             else:
                 rk = "int"
             # numpy true division by an array/scalar never raises; no div obligation elementwise
             def f(x, y, op=op, ka=ka, kb=kb):
+                if rk == "bool" and isinstance(op, ast.Mult):
+                    return z3.And(x, y)
                 saved, self.spec = self.spec, True
                 try:
                     return self.arith(op, Sc(ka, x), Sc(kb, y), node, st).t
